@@ -2,7 +2,7 @@
    (CID, bytes) sequence.  Statements only (closed by [exact]); not wired to a check of their own: the
    integrator combines them with the writer side ("each writer's file = car_file ... of the stored
    blocks") into C01.  Vocabulary as in props/C07.v; additionally
-     archive_ok hok hdrdec o roots bs   header round-trips through hdrdec and fits o_maxh; every block is
+     archive_ok_o hok hdrdec o ro bs    header round-trips through hdrdec and fits o_maxh; every block is
                                         a well-formed CID + data within o_maxs; unless o_trusted, every
                                         block hashes to its CID according to the oracle hok
      root_block_ok b                    well-formed CID, digest within go-cid's 32 MiB cap, section
@@ -17,32 +17,32 @@ From GoCarProofs Require Import HeaderFacts ScanFacts ReadOnlyFacts ReadOnlyRefi
 (* v2 BlockReader (NewBlockReader + Next until io.EOF), CARv1 or CARv2 with any data/index padding,
    with or without an embedded index, optional null padding under ZeroLengthSectionAsEOF *)
 Theorem C01_block_reader_reads_back :
-  forall hok (o : ropts) (ct : container) (roots : list bytes) (bs : list block) (npad : N) (file : bytes),
-    archive_ok hok dec_header_canon o roots bs ->
+  forall hok (o : ropts) (ct : container) (ro : option (list bytes)) (bs : list block) (npad : N) (file : bytes),
+    archive_ok_o hok dec_header_canon o ro bs ->
     (npad = 0 \/ o_zeof o = true) ->
-    car_file ct roots bs npad = Some file ->
+    car_file ct ro bs npad = Some file ->
     match ct with CV1 => True | CV2 chi clo _ _ _ => chi < two64 /\ clo < two64 /\ 10 <= o_maxh o end ->
     blen file < two63 ->
     br_read_all hok dec_header_canon o file
-    = Ok (match ct with CV1 => 1 | CV2 _ _ _ _ _ => 2 end, roots, mkscan bs EEof).
+    = Ok (match ct with CV1 => 1 | CV2 _ _ _ _ _ => 2 end, hdr_roots ro, mkscan bs EEof).
 Proof. exact block_reader_reads_back. Qed.
 Print Assumptions C01_block_reader_reads_back.
 
 (* root-module reader: car.NewCarReader + Next until io.EOF (= the order car.LoadCar stores blocks in);
-   it rejects an empty root list, hence roots <> [] *)
+   it rejects an empty root list, hence ro <> [] *)
 Theorem C01_root_reader_reads_back :
-  forall hok (roots : list bytes) (bs : list block),
-    roots_ok roots -> blen (enc_header (Some roots) 1) <= root_max_section -> roots <> [] ->
+  forall hok (ro : option (list bytes)) (bs : list block),
+    roots_ok (hdr_roots ro) -> blen (enc_header ro 1) <= root_max_section -> hdr_roots ro <> [] ->
     Forall root_block_ok bs -> Forall (hash_good hok) bs ->
-    root_read_all hok dec_header_canon (enc_payload roots bs) = Ok (roots, mkscan bs EEof).
+    root_read_all hok dec_header_canon (ld (enc_header ro 1) ++ enc_sections bs) = Ok (hdr_roots ro, mkscan bs EEof).
 Proof. exact root_reader_reads_back. Qed.
 Print Assumptions C01_root_reader_reads_back.
 
-(* v2 Reader: NewReader succeeds, DataReader shows exactly the CARv1 payload bytes, Roots are the roots *)
+(* v2 Reader: NewReader succeeds, DataReader shows exactly the CARv1 payload bytes, Roots are the ro *)
 Theorem C01_data_reader_window :
-  forall (o : qopts) (ct : container) (roots : list bytes) (bs : list block) (npad : N) (file : bytes),
-    car_file ct roots bs npad = Some file -> roots_ok roots ->
-    (blen (enc_header (Some roots) 1) <= q_maxh o /\
+  forall (o : qopts) (ct : container) (ro : option (list bytes)) (bs : list block) (npad : N) (file : bytes),
+    car_file ct ro bs npad = Some file -> roots_ok (hdr_roots ro) ->
+    (blen (enc_header ro 1) <= q_maxh o /\
      Forall (rblock_ok (q_maxs o) (q_maxcid o)) bs /\ (npad = 0 \/ q_zeof o = true)) ->
     blen file < two63 -> (q_codec o = codec_sorted \/ q_codec o = codec_mh_sorted) ->
     match ct with
@@ -51,16 +51,16 @@ Theorem C01_data_reader_window :
                              (emb <> None -> N.of_nat (length bs) < two31)
     end ->
     exists r, new_reader dec_header_canon (q_maxh o) file = Ok r /\
-              data_window r = payload_np roots bs npad /\
-              reader_roots dec_header_canon (q_maxh o) r = Ok roots.
+              data_window r = payload_np ro bs npad /\
+              reader_roots dec_header_canon (q_maxh o) r = Ok (hdr_roots ro).
 Proof. exact data_reader_reads_back. Qed.
 Print Assumptions C01_data_reader_window.
 
 (* read-only blockstore: Roots, AllKeysChan = the CID sequence (as keys), Get of every key = its bytes *)
 Theorem C01_readonly_blockstore_reads_back :
-  forall (o : qopts) (ct : container) (roots : list bytes) (bs : list block) (npad : N) (file : bytes),
-    car_file ct roots bs npad = Some file -> roots_ok roots ->
-    (blen (enc_header (Some roots) 1) <= q_maxh o /\
+  forall (o : qopts) (ct : container) (ro : option (list bytes)) (bs : list block) (npad : N) (file : bytes),
+    car_file ct ro bs npad = Some file -> roots_ok (hdr_roots ro) ->
+    (blen (enc_header ro 1) <= q_maxh o /\
      Forall (rblock_ok (q_maxs o) (q_maxcid o)) bs /\ (npad = 0 \/ q_zeof o = true)) ->
     blen file < two63 -> (q_codec o = codec_sorted \/ q_codec o = codec_mh_sorted) ->
     match ct with
@@ -70,7 +70,7 @@ Theorem C01_readonly_blockstore_reads_back :
     end ->
     (q_storeid o = true -> index_wid o ct None = true) -> consistent bs -> id_consistent bs ->
     exists s, ro_open dec_header_canon o file None = Ok s /\
-      ro_roots dec_header_canon s = OKeys roots /\
+      ro_roots dec_header_canon s = OKeys (hdr_roots ro) /\
       ro_keys dec_header_canon s = KKeys (ref_keys (q_whole o) bs) None /\
       forall c d p, In (c, d) bs -> cid_parse c = Some p -> ro_get s (key_of (q_whole o) c p) = OBytes d.
 Proof. exact ro_blockstore_reads_back. Qed.
@@ -78,9 +78,9 @@ Print Assumptions C01_readonly_blockstore_reads_back.
 
 (* readable storage: Roots, Get / GetStream of every CID = its bytes *)
 Theorem C01_readable_storage_reads_back :
-  forall (o : qopts) (ct : container) (roots : list bytes) (bs : list block) (npad : N) (file : bytes),
-    car_file ct roots bs npad = Some file -> roots_ok roots ->
-    (blen (enc_header (Some roots) 1) <= q_maxh o /\
+  forall (o : qopts) (ct : container) (ro : option (list bytes)) (bs : list block) (npad : N) (file : bytes),
+    car_file ct ro bs npad = Some file -> roots_ok (hdr_roots ro) ->
+    (blen (enc_header ro 1) <= q_maxh o /\
      Forall (rblock_ok (q_maxs o) (q_maxcid o)) bs /\ (npad = 0 \/ q_zeof o = true)) ->
     blen file < two63 -> (q_codec o = codec_sorted \/ q_codec o = codec_mh_sorted) ->
     match ct with
@@ -90,7 +90,7 @@ Theorem C01_readable_storage_reads_back :
     end ->
     (q_storeid o = true -> index_wid o ct None = true) -> consistent bs -> id_consistent bs ->
     exists s, sto_open dec_header_canon o file = Ok s /\
-      sto_roots s = OKeys roots /\
+      sto_roots s = OKeys (hdr_roots ro) /\
       forall c d p, In (c, d) bs -> cid_parse c = Some p -> sto_get s (key_of (q_whole o) c p) = OBytes d.
 Proof. exact readable_storage_reads_back. Qed.
 Print Assumptions C01_readable_storage_reads_back.
